@@ -121,7 +121,13 @@ def build(net, description="vv generated", with_metadata=True):
         if t.scale is not None or (omit == "scale" and t.zp is not None):
             sc = _vec(b, QP.QuantizationParametersStartScaleVector, [float(s) for s in t.scale], b.PrependFloat32) if omit != "scale" else None
             z = _vec(b, QP.QuantizationParametersStartZeroPointVector, [int(v) for v in (t.zp or [])], b.PrependInt64) if omit != "zp" else None
+            mnv = _vec(b, QP.QuantizationParametersStartMinVector, [float(s) for s in t.qmin], b.PrependFloat32) if getattr(t, "qmin", None) else None
+            mxv = _vec(b, QP.QuantizationParametersStartMaxVector, [float(s) for s in t.qmax], b.PrependFloat32) if getattr(t, "qmax", None) else None
             QP.QuantizationParametersStart(b)
+            if mnv is not None:
+                QP.QuantizationParametersAddMin(b, mnv)
+            if mxv is not None:
+                QP.QuantizationParametersAddMax(b, mxv)
             if sc is not None:
                 QP.QuantizationParametersAddScale(b, sc)
             if z is not None:
